@@ -418,26 +418,45 @@ def families():
 
 
 def gen_profile(rng, vtype, m):
+    prof = _gen_profile(rng, vtype, m)
+    if vtype != 'simple' and vtype != 'pairwise' and rng.random() < 0.1:
+        # a ballot of weight ZERO (a row of a tally sheet nobody cast): half of the time it names a candidate that occurs nowhere else
+        cands = candidates_of(base_vtype(vtype), prof)
+        c = (max(cands) + 1 if cands else 0) if rng.random() < 0.5 else rng.choice(cands or [0])
+        other = [x for x in cands if x != c]
+        if base_vtype(vtype) == 'ranked':
+            b = [c] + ([rng.choice(other)] if other and rng.random() < 0.5 else [])
+        elif base_vtype(vtype) == 'approval':
+            b = sorted([c] + ([rng.choice(other)] if other and rng.random() < 0.3 else []))
+        else:
+            b = [[c, rng.randint(0, 5)]]
+        if all(bb != b for bb, _ in prof):
+            prof = list(prof)
+            prof.insert(rng.randrange(len(prof) + 1), [b, '0'])
+    return prof
+
+
+def _gen_profile(rng, vtype, m):
     if vtype == 'simple':
         return gen_simple(rng, m)
     if vtype in ('ranked', 'ranked_noshared') and m >= 4 and rng.random() < 0.2:
         return gen_ranked_cycle(rng, m)
     if vtype in ('ranked', 'ranked_noshared') and rng.random() < 0.25:
         return gen_ranked_tied(rng, m)
+    if vtype == 'ranked' and m >= 4 and rng.random() < 0.05:
+        return gen_ranked_shared_only(rng, m)
     if vtype == 'ranked':
         return gen_ranked(rng, m, shared=rng.random() < 0.3)
     if vtype == 'ranked_noshared':
         return gen_ranked(rng, m, shared=False)
+    if vtype == 'approval' and m >= 3 and rng.random() < 0.15:
+        return gen_approval_level(rng, m)
     if vtype == 'approval':
         return gen_approval(rng, m)
     if vtype == 'score' and rng.random() < 0.3:
         return gen_score_tied(rng, m)
     if vtype == 'score' and rng.random() < 0.2:
         return gen_score_partial_heavy(rng, m)
-    if vtype == 'approval' and m >= 3 and rng.random() < 0.15:
-        return gen_approval_level(rng, m)
-    if vtype == 'ranked' and m >= 4 and rng.random() < 0.05:
-        return gen_ranked_shared_only(rng, m)
     if vtype == 'score':
         return gen_score(rng, m)
     if vtype == 'pairwise':
